@@ -64,7 +64,53 @@ def replay(model, obligation):
         b = marshal.uvint_pack(v)
         exp = cser.unsigned_vint(v, cser.unsigned_vint_extra_bytes(v))
         tail = bytes.fromhex((model.get('tail') or {}).get('bytes_hex', '')) if isinstance(model.get('tail'), dict) else b''
-        r = marshal.uvint_unpack(b + tail)
+        try:
+            r = marshal.uvint_unpack(b + tail)
+        except Exception as e:
+            r = repr(e)
         bad = b != exp or r != (v, len(exp))
         return {'reproduced': bad, 'detail': 'uvint_pack(%d) = %s (VIntCoding: %s); unpack -> %r' % (v, b.hex(), exp.hex(), r)}
     return {'reproduced': False, 'detail': 'no native replay for %s' % hname}
+
+
+def replay_collection(model, obligation):
+    """Collections with the abstract element codec instantiated by real CQL types (text = empty_binary_ok, int = not)."""
+    from cassandra import cqltypes
+    hname = obligation.split('/')[1]
+    empty_ok = 'empty_ok' in hname
+    sub = cqltypes.UTF8Type if empty_ok else cqltypes.Int32Type
+    mk = (lambda i: 'v%d' % i) if empty_ok else (lambda i: i + 1)
+    pv = int(model.get('protocol_version', 4) or 4)
+    fails = []
+    if hname in ('TupleType', 'UserType'):
+        inner = cqltypes.ListType.apply_parameters([cqltypes.Int32Type])
+        inner_map = cqltypes.MapType.apply_parameters([cqltypes.UTF8Type, cqltypes.Int32Type])
+        if hname == 'TupleType':
+            t = cqltypes.TupleType.apply_parameters([cqltypes.Int32Type, inner, inner_map])
+        else:
+            t = cqltypes.UserType.make_udt_class('ks', 'verif_replay_udt', ('a', 'b', 'c'), (cqltypes.Int32Type, inner, inner_map))
+        for pvv in sorted({pv, 1, 2, 3, 4, 5}):
+            for val in [(1, [1, 2], {'k': 1}), (None, [3], None), (5, None, {'a': 1, 'b': 2}), (7, [], {})]:
+                back = t.deserialize(t.serialize(val, pvv), pvv)
+                got = tuple(list(x) if isinstance(x, list) else (dict(x) if x is not None and not isinstance(x, int) else x) for x in back)
+                exp = tuple(list(x) if isinstance(x, list) else x for x in val)
+                if got != exp:
+                    fails.append('%s pv=%d %r -> %r' % (hname, pvv, val, got))
+        return {'reproduced': bool(fails), 'detail': '; '.join(fails[:3]) or 'tuples/UDTs with nested collections round-trip on all versions'}
+    for pvv in sorted({pv, 2, 4}):
+        for k in range(0, 4):
+            for mask in range(1 << k):
+                items = [None if (mask >> i) & 1 else mk(i) for i in range(k)]
+                if hname.startswith('MapType'):
+                    t = cqltypes.MapType.apply_parameters([cqltypes.Int32Type, sub])
+                    val = dict((i, v) for i, v in enumerate(items))
+                    back = list(t.deserialize(t.serialize(val, pvv), pvv).values())
+                else:
+                    base = cqltypes.ListType if hname.startswith('ListType') else cqltypes.SetType
+                    t = base.apply_parameters([sub])
+                    if base is cqltypes.SetType and None in items:
+                        continue
+                    back = list(t.deserialize(t.serialize(items, pvv), pvv))
+                if back != items:
+                    fails.append('%s pv=%d %r -> %r' % (t.cql_parameterized_type(), pvv, items, back))
+    return {'reproduced': bool(fails), 'detail': '; '.join(fails[:3]) or 'all small collections round-trip'}
